@@ -20,7 +20,7 @@ from .common import exc_name
 
 PROPERTY = 'C12'
 LEVEL = 'model_checking'
-RULE = ('genome of N contigs; every ordered selection of groups from genome names + {unknown} + {ignored}; 1-2 entries per '
+RULE = ('genome of N contigs; every ordered selection of groups from genome names + {unknown} + {ignored}; 1-3 entries per '
         'group at globally unique positions; chunkings of the entry stream; every consumer; deviations = groups that are out '
         'of genome order, unknown or ignored (0, 1, 2+ reported); non-trivial = at least one deviation or a contig without data')
 ASSUMPTIONS = [
@@ -57,7 +57,7 @@ def genome_names(n):
 
 
 def bounds(tier, seed):
-    return {'n_contigs': 3 if tier == 'quick' else 4, 'group_sizes': [1, 2], 'consumers': list(CONSUMERS)}
+    return {'n_contigs': 3 if tier == 'quick' else 4, 'group_sizes': [1, 2, 3], 'consumers': list(CONSUMERS)}
 
 
 def group_sequences(n):
@@ -91,7 +91,7 @@ def entries_for(seq, size_mode):
     out = []
     pos = 1
     for gi, g in enumerate(seq):
-        k = 1 if size_mode == 1 else (2 if gi % 2 == 0 else 1)
+        k = 1 if size_mode == 1 else (3 if size_mode == 3 else (2 if gi % 2 == 0 else 1))
         for _ in range(k):
             out.append((g, pos))
             pos += 1
@@ -408,7 +408,9 @@ def run_shard(desc, deadline):
     scratch = tempfile.mkdtemp(dir='/dev/shm', prefix='c12_')
     try:
         for seq in desc['seqs']:
-            for size_mode in (1, 2):
+            for size_mode in (1, 2, 3):
+                if size_mode == 3 and len(seq) > 3:
+                    continue         # 3 entries per group (a group spread over >= 3 chunks) for up to 3 groups
                 nent = len(entries_for(seq, size_mode))
                 cs = chunkings(nent, tier) if size_mode == 1 else [(), tuple(range(1, nent)), tuple(range(2, nent, 2))]
                 for cuts in cs:
